@@ -233,6 +233,12 @@ func (r *Run) runScript(pi int, sc *plan.Script) {
 			}
 			op.Tag, op.M = op.Tag[:3], m
 		}
+		if (op.Tag == "emb" || op.Tag == "raw") && op.M < 0 {
+			// negative member: the (-M-1)-th running member at this instant
+			if run := r.C.Running(); len(run) > 0 {
+				op.M = run[(-op.M-1)%len(run)].Idx
+			}
+		}
 		if op.Tag == "emb" || op.Tag == "cc" || op.Tag == "raw" {
 			// per-op entry point: a client of that kind (and member) private to this script
 			code := map[string]int{"emb": 1, "cc": 2, "raw": 3}[op.Tag]
@@ -707,6 +713,12 @@ func (r *Run) partitions() uint64 {
 }
 
 func (r *Run) doCtl(sc *plan.Script, op *plan.Op, rec *plan.Rec) {
+	switch op.K {
+	case "ctl.leave", "ctl.crash", "ctl.crash_inflight":
+		if !r.resolveVictim(op, rec) {
+			return
+		}
+	}
 	switch op.K {
 	case "ctl.sleep":
 		time.Sleep(msd(op.Dur))
